@@ -1,5 +1,179 @@
-(* C02 - placeholder while the development is built *)
-From Coq Require Import List ZArith.
-From LA Require Import Fmt.FmtNumDefs.
-Theorem C02_placeholder : True. Proof. exact I. Qed.
-Print Assumptions C02_placeholder.
+(* C02 - Write-then-read round trip preserves entries in every format.
+   Byte level (this file): theorems over the Gallina transcriptions of the ustar / cpio odc / cpio newc
+   header writers (coq/Fmt/Fmt{Tar,Cpio}Defs.v) and of the matching readers' header parsers
+   (coq/Fmt/FmtParseDefs.v).  Both sides are tied to the C code by ./check C02: the writer model must produce
+   the very bytes the real writers emit for generated entry lists with bodies and random write chunkings, the
+   parser model must return what the real reader's getters return on those real archives.
+   Spec level (all other formats, options, filters, block sizes): checked by the oracle of props/C02.py,
+   not proved. *)
+From Coq Require Import List ZArith Bool Lia.
+From LA Require Import Gen.Defines Gen.FmtLayout Fmt.FmtNumDefs Fmt.FmtNumProofs Fmt.FmtTarDefs Fmt.FmtBufProofs
+  Fmt.FmtTarProofs Fmt.FmtCpioDefs Fmt.FmtCpioProofs Fmt.FmtArDefs Fmt.FmtWriteDefs Fmt.FmtParseDefs Fmt.FmtParseProofs
+  Fmt.FmtPaxProofs.
+Import ListNotations.
+Local Open Scope Z_scope.
+
+(* ------------------------------------------------------------------ ustar header round trip *)
+(* For every entry the strict ustar writer accepts (status 0), whose strings are NUL-free bytes and whose
+   pathname is not split right behind a '/', the reader's header parser - checksum verification, magic,
+   typeflag, every numeric field through tar_atol, prefix/name join, linkname, uname, gname - returns
+   exactly the view the format keeps of the entry. *)
+Theorem C02_ustar_header_roundtrip : forall e,
+  fst (ustar_header e (-1) true) = 0 ->
+  entry_bytes_ok e -> strings_no_nul e ->
+  (forall i, ustar_split (ob (e_path e)) = Some i -> nth (i - 1) (ob (e_path e)) 0 <> slash) ->
+  exists t, ustar_typeflag e (-1) = Some t /\
+            ustar_parse_header (snd (ustar_header e (-1) true)) = Some (ustar_view e t).
+Proof. exact ustar_header_roundtrip. Qed.
+Print Assumptions C02_ustar_header_roundtrip.
+
+(* the checksum the writer stores always verifies, whatever the header status *)
+Theorem C02_ustar_checksum_verifies : forall e tt, entry_bytes_ok e -> (0 <= tt <= 255 \/ tt < 0) ->
+  tar_checksum_ok (snd (ustar_header e tt true)) = true.
+Proof. exact ustar_checksum_verifies. Qed.
+Print Assumptions C02_ustar_checksum_verifies.
+
+(* ustar_split_join: when the writer splits a long pathname, prefix ++ "/" ++ name is the pathname,
+   the prefix has 1..155 bytes and the name 1..100 *)
+Theorem C02_ustar_split_join : forall pp i,
+  (USTAR_name_size < length pp)%nat -> fst (ustar_name_writes pp) = 0 -> ustar_split pp = Some i ->
+  firstn i pp ++ [slash] ++ skipn (S i) pp = pp
+  /\ (0 < length (firstn i pp) <= USTAR_prefix_size)%nat
+  /\ (0 < length (skipn (S i) pp) <= USTAR_name_size)%nat.
+Proof. exact ustar_split_join. Qed.
+Print Assumptions C02_ustar_split_join.
+
+(* every header is exactly one 512-byte block *)
+Theorem C02_ustar_header_length : forall e tt, length (snd (ustar_header e tt true)) = 512%nat.
+Proof. exact ustar_header_length. Qed.
+Print Assumptions C02_ustar_header_length.
+
+(* ------------------------------------------------------------------ bodies: any partition into write calls *)
+(* archive_write_data clamps every call to the bytes that remain: the bytes emitted and the total accepted
+   depend only on the concatenation of the buffers, not on how the client cut it *)
+Theorem C02_body_chunking_irrelevant : forall c1 c2 rem, 0 <= rem -> concat c1 = concat c2 ->
+  data_chunks rem c1 = data_chunks rem c2.
+Proof. exact body_chunking_irrelevant. Qed.
+Print Assumptions C02_body_chunking_irrelevant.
+
+Theorem C02_body_is_prefix_of_data : forall chunks rem, 0 <= rem ->
+  fst (data_chunks rem chunks) = Z.min rem (lenZ (concat chunks))
+  /\ snd (data_chunks rem chunks) = firstn (Z.to_nat rem) (concat chunks).
+Proof. exact data_chunks_total. Qed.
+Print Assumptions C02_body_is_prefix_of_data.
+
+(* ------------------------------------------------------------------ fixed point *)
+(* norm_ustar = what the writer makes of an entry before encoding it (non-regular files and links get size 0,
+   directories a trailing '/').  It is idempotent, and writing the normalised entry gives byte for byte the
+   output of the original one: the read-back form is a fixed point. *)
+Theorem C02_norm_ustar_idempotent : forall e, norm_ustar (norm_ustar e) = norm_ustar e.
+Proof. exact norm_ustar_idem. Qed.
+Print Assumptions C02_norm_ustar_idempotent.
+Theorem C02_ustar_fixed_point : forall full e, ustar_entry full (norm_ustar e) = ustar_entry full e.
+Proof. exact ustar_entry_norm_fixed. Qed.
+Print Assumptions C02_ustar_fixed_point.
+
+(* ------------------------------------------------------------------ cpio: every header field decodes *)
+(* odc: each field of the 76-byte block, read by the reader's atol8, is the value when it is in the field's
+   range (and the saturated maximum otherwise - C10) *)
+Theorem C02_odc_uid_roundtrip : forall ino e, 0 <= e_uid e < zpow 8 ODC_c_uid_size ->
+  cpio_atol8 (slice R_odc_uid_offset R_odc_uid_size (odc_block ino e)) = e_uid e.
+Proof.
+  intros ino e H. change R_odc_uid_offset with ODC_c_uid_offset. change R_odc_uid_size with ODC_c_uid_size.
+  rewrite odc_slice_uid. rewrite odc_field_decodes by (unfold ODC_c_uid_size; lia).
+  replace ((0 <=? e_uid e) && (e_uid e <? zpow 8 ODC_c_uid_size)) with true; [reflexivity|].
+  symmetry. apply andb_true_iff. split; [apply Z.leb_le | apply Z.ltb_lt]; lia.
+Qed.
+Print Assumptions C02_odc_uid_roundtrip.
+Theorem C02_odc_mtime_roundtrip : forall ino e, 0 <= e_mtime e < zpow 8 ODC_c_mtime_size ->
+  cpio_atol8 (slice R_odc_mtime_offset R_odc_mtime_size (odc_block ino e)) = e_mtime e.
+Proof.
+  intros ino e H. change R_odc_mtime_offset with ODC_c_mtime_offset. change R_odc_mtime_size with ODC_c_mtime_size.
+  rewrite odc_slice_mtime. rewrite odc_field_decodes by (unfold ODC_c_mtime_size; lia).
+  replace ((0 <=? e_mtime e) && (e_mtime e <? zpow 8 ODC_c_mtime_size)) with true; [reflexivity|].
+  symmetry. apply andb_true_iff. split; [apply Z.leb_le | apply Z.ltb_lt]; lia.
+Qed.
+Print Assumptions C02_odc_mtime_roundtrip.
+Theorem C02_odc_filesize_roundtrip : forall st e st' out rem,
+  odc_write_header st e = (st', ST_OK, out, rem) ->
+  cpio_atol8 (slice ODC_c_filesize_offset ODC_c_filesize_size (firstn 76 out))
+  = if (0 <? length (sym_of e))%nat then lenZ (sym_of e) else body_size e.
+Proof. exact odc_ok_filesize. Qed.
+Print Assumptions C02_odc_filesize_roundtrip.
+
+Theorem C02_newc_uid_roundtrip : forall e, 0 <= e_uid e < zpow 16 NEWC_c_uid_size ->
+  cpio_atol16 (slice R_newc_uid_offset R_newc_uid_size (newc_block e)) = e_uid e.
+Proof.
+  intros e H. change R_newc_uid_offset with NEWC_c_uid_offset. change R_newc_uid_size with NEWC_c_uid_size.
+  rewrite newc_slice_uid. rewrite newc_field_decodes by (unfold NEWC_c_uid_size; lia).
+  replace ((0 <=? e_uid e) && (e_uid e <? zpow 16 NEWC_c_uid_size)) with true; [reflexivity|].
+  symmetry. apply andb_true_iff. split; [apply Z.leb_le | apply Z.ltb_lt]; lia.
+Qed.
+Print Assumptions C02_newc_uid_roundtrip.
+Theorem C02_newc_mtime_roundtrip : forall e, 0 <= e_mtime e < zpow 16 NEWC_c_mtime_size ->
+  cpio_atol16 (slice R_newc_mtime_offset R_newc_mtime_size (newc_block e)) = e_mtime e.
+Proof.
+  intros e H. change R_newc_mtime_offset with NEWC_c_mtime_offset. change R_newc_mtime_size with NEWC_c_mtime_size.
+  rewrite newc_slice_mtime. rewrite newc_field_decodes by (unfold NEWC_c_mtime_size; lia).
+  replace ((0 <=? e_mtime e) && (e_mtime e <? zpow 16 NEWC_c_mtime_size)) with true; [reflexivity|].
+  symmetry. apply andb_true_iff. split; [apply Z.leb_le | apply Z.ltb_lt]; lia.
+Qed.
+Print Assumptions C02_newc_mtime_roundtrip.
+Theorem C02_newc_filesize_roundtrip : forall e ret out rem,
+  newc_write_header e = (ret, out, rem) -> ST_WARN <= ret ->
+  cpio_atol16 (slice NEWC_c_filesize_offset NEWC_c_filesize_size (firstn 110 out))
+  = if (0 <? length (sym_of e))%nat then lenZ (sym_of e) else body_size e.
+Proof. exact newc_ok_filesize. Qed.
+Print Assumptions C02_newc_filesize_roundtrip.
+
+(* ------------------------------------------------------------------ pax record layer *)
+(* "<len> <key>=<value>\n": the decimal number written in front is the length of the whole record, and it is
+   what a reader parses from the record (for every key/value with a total below 10^9, the range in which the
+   C code's int arithmetic is defined) *)
+Theorem C02_pax_record_len : forall key value,
+  1 + lenZ key + 1 + lenZ value + 1 < 1000000000 ->
+  lenZ (pax_record key value) = pax_record_total key value
+  /\ atoi_dec (pax_record key value) 0 = lenZ (pax_record key value).
+Proof. exact pax_record_len. Qed.
+Print Assumptions C02_pax_record_len.
+
+(* ------------------------------------------------------------------ whole archives, by computation *)
+(* PARTIAL: the entry-list round trip  parse (write es) = map view es  is proved for single headers above and
+   checked (not proved) for lists by the correspondence run; here it is exhibited by the kernel on a concrete
+   list mixing a 256-byte split pathname, a directory, a symlink and bodies of 0, 1 and 513 bytes, for the
+   three modelled formats. *)
+Definition ex_list : list entry :=
+  [ mkEntry (Some (repeat 97 155 ++ [47] ++ repeat 98 100)) None None (Some [117]) (Some [103]) (IFREG + 420) 262143 1 (Some 513)
+            8589934591 3 7 1 0 [repeat 65 500; repeat 66 13];
+    mkEntry (Some [100]) None None None None (IFDIR + 493) 0 0 (Some 0) 5 3 8 1 0 [];
+    mkEntry (Some [108]) None (Some [116; 47; 120]) None None (IFLNK + 511) 1 2 (Some 0) 6 3 9 1 0 [];
+    mkEntry (Some [101]) None None None None (IFREG + 384) 1 2 (Some 0) 6 3 10 1 0 [];
+    mkEntry (Some [111]) None None None None (IFREG + 384) 1 2 (Some 1) 7 3 11 1 0 [[90]] ].
+
+Example C02_ustar_archive_roundtrip_example :
+  match ustar_parse_archive 100 (archive_of Ustar ex_list) with
+  | Some l => map (fun vb => (pv_path (fst vb), pv_size (fst vb), length (snd vb))) l
+              = [(repeat 97 155 ++ [47] ++ repeat 98 100, 513, 513%nat); ([100; 47], 0, 0%nat); ([108], 0, 0%nat);
+                 ([101], 0, 0%nat); ([111], 1, 1%nat)]
+              /\ map (fun vb => pv_link (fst vb)) l = [[]; []; [116; 47; 120]; []; []]
+  | None => False
+  end.
+Proof. vm_compute. split; reflexivity. Qed.
+
+Example C02_newc_archive_roundtrip_example :
+  match cpio_parse_archive newc_parse_entry 100 (archive_of Newc ex_list) with
+  | Some l => map (fun vb => (pv_path (fst vb), pv_uid (fst vb), pv_mtime (fst vb), length (snd vb))) l
+              = [(repeat 97 155 ++ [47] ++ repeat 98 100, 262143, 4294967295, 513%nat); ([100], 0, 5, 0%nat); ([108], 1, 6, 0%nat);
+                 ([101], 1, 6, 0%nat); ([111], 1, 7, 1%nat)]
+  | None => False
+  end.
+Proof. vm_compute. reflexivity. Qed.
+
+Example C02_odc_archive_roundtrip_example :
+  match cpio_parse_archive odc_parse_entry 100 (archive_of Odc ex_list) with
+  | Some l => map (fun vb => (pv_path (fst vb), pv_uid (fst vb), pv_mtime (fst vb), length (snd vb))) l
+              = [(repeat 97 155 ++ [47] ++ repeat 98 100, 262143, 8589934591, 513%nat); ([100], 0, 5, 0%nat); ([108], 1, 6, 0%nat);
+                 ([101], 1, 6, 0%nat); ([111], 1, 7, 1%nat)]
+  | None => False
+  end.
+Proof. vm_compute. reflexivity. Qed.
